@@ -2,6 +2,7 @@ package checks
 
 import (
 	"fmt"
+	"go/token"
 	"sort"
 	"strings"
 
@@ -465,8 +466,20 @@ func (c *Ctx) checkDump(r *report.Result, env *cartEnv) {
 	it := c.W.It
 	var foreign []string
 	stores := 0
+	var wraps []string
 	st := it.StateOn(c.W.Generic)
 	it.Hooks = ai.Hooks{
+		Wrap: func(_ *ai.State, at ssa.Instruction, op token.Token, x, y *ai.Int) {
+			// 8- and 16-bit arithmetic only: a dump is up to 128 KiB, so a narrower offset wraps; the hidden
+			// counter of a range loop (an int the interpreter widens to its maximum) cannot
+			if isRepoFn(at.Parent()) && len(wraps) < 4 && x != nil && x.W < 32 {
+				e := ""
+				if v, isV := at.(ssa.Value); isV {
+					e = exprString(v)
+				}
+				wraps = append(wraps, c.pos(at)+": "+e)
+			}
+		},
 		Load: func(_ *ai.State, at ssa.Instruction, p *ai.Ptr, _ ai.Value) {
 			if p != nil && p.Obj.ID <= c.W.NObjInit && !allowed[p.Obj] {
 				foreign = append(foreign, c.cellLabel(ai.CellKey{Obj: p.Obj.ID, Path: ai.NormPath(p.Path)}))
@@ -482,6 +495,7 @@ func (c *Ctx) checkDump(r *report.Result, env *cartEnv) {
 	it.Hooks = ai.Hooks{}
 	sort.Strings(foreign)
 	r.Ob("R-dump", post != nil && len(foreign) == 0 && stores == 0, env.ct.Name+": dump reads only RAM storage and changes nothing", firstPos(c, fn), fmt.Sprintf("loads outside the controller and its RAM: %v; stores into machine state: %d", foreign, stores))
+	r.Ob("R-dump", len(wraps) == 0, env.ct.Name+": no 8- or 16-bit offset or length computed by the dump routine can wrap around", firstPos(c, fn), fmt.Sprintf("arithmetic that may leave its type's range (the dump of a 16-bank cartridge is 128 KiB): %v", wraps))
 }
 
 func checkC10(c *Ctx) *report.Result {
@@ -814,5 +828,9 @@ func checkC10(c *Ctx) *report.Result {
 			r.Ob("T-write", ok, name, hpos(ev), strings.Join(why, "; "))
 		}
 	}
+	r.Rule("T-step", "the clock's tick is reached once per machine cycle whatever the CPU is doing: the frame loop calls the memory step once per iteration (L2 of C26) and the memory step calls the tick once, unconditionally (L4)")
+	adopt(r, c.sibling("C26"), map[string]string{"L2": "T-step", "L4": "T-step"}, "a tick that is skipped while the CPU sleeps, or batched, does not advance the clock once per machine cycle", func(f report.Finding) bool {
+		return strings.Contains(f.Construct, "Mapper") || strings.Contains(f.Construct, "rtc") || strings.Contains(f.Construct, "floor") || strings.Contains(f.Construct, "memory")
+	})
 	return r
 }
